@@ -71,7 +71,18 @@ LawClauses(r) ==
 TableClauses(r) ==
   << <<"OutcomeTable", r.outcome \in Outcomes(r.method, r.wk, SetOf(r.fixedset))>> >>
 
+(* ---- zeropair: two consecutive fits, same delta in force, same number of non-zero observations, different
+   numbers of zeros.  g1/ab1 and g/ab = normal equations and deviation from the reference regression of the
+   first and the second fit; bitsS / bits0 = the second fit in this sequence / alone in a fresh process ---- *)
+ZeroPairClauses(r) ==
+  IF r.exc # "" THEN << <<"UnexpectedException", FALSE>> >>
+  ELSE <<
+    <<"NormalEquations", r.pos /\ Small(r.g1) /\ Small(r.ab1) /\ Small(r.g) /\ Small(r.ab)>>,
+    <<"CaseOrderIndependent", r.bits0 = r.bitsS>>
+  >>
+
 Clauses(r) == CASE r.kind = "table" -> TableClauses(r)
+                [] r.kind = "zeropair" -> ZeroPairClauses(r)
                 [] r.kind = "discrete" -> DiscreteClauses(r)
                 [] r.kind = "law" -> LawClauses(r)
 
